@@ -441,12 +441,24 @@ QUAL = "(loggee_at(self, {k}).stamp is not None and loggee_at(self, {k}).stamp >
 SOME_QUAL = named("some_loggee_newer",
                   "exists(lambda k: 0 <= k and k < nloggees(self) and %s)" % QUAL.format(k="k"),
                   lambda log: any(sh.stamp is not None and sh.stamp > log.stamp for sh in log.loggees.values()))
+@specfunc
+def history_model_agrees(E, log):
+    """NATIVE-ONLY clause (trivially true for the prover): the small-scope history driver (_n_history_check: every
+    history of <= 6 events W0 / W1 / R / T over 2 loggees and 3 ticks, plus random longer ones, on real Store / Share /
+    Log objects) found the real objects inside the invariant of the `update` lemmas, agreeing with the statement outside
+    the recorded same-tick corner, disagreeing inside it, and agreeing with lemma update/STRONGEST everywhere"""
+    return True
+
+
+history_model_agrees.native = lambda log: not getattr(log, "_c22_history_error", None)
+
 contract(FL, "Log.update", "C22", params=P, modifies=LOG_MOD,
          loops={0: dict(inv=["forall(lambda k: implies(0 <= k and k < _i, not %s))" % QUAL.format(k="k"),
                              NOT_CALLED])},
          ensures=["implies(old(self.stamp) is None, %s)" % ONE_RECORD,
                   "implies(old(self.stamp) is not None and old(%s), %s)" % (SOME_QUAL, ONE_RECORD),
-                  "implies(old(self.stamp) is not None and not old(%s), %s)" % (SOME_QUAL, NOTHING)],
+                  "implies(old(self.stamp) is not None and not old(%s), %s)" % (SOME_QUAL, NOTHING),
+                  "history_model_agrees(self)"],
          local_ensures=["implies(old(self.stamp) is None, %s)" % CALLED_ONCE,
                         "implies(old(self.stamp) is not None and old(%s), %s)" % (SOME_QUAL, CALLED_ONCE),
                         "implies(old(self.stamp) is not None and not old(%s), %s)" % (SOME_QUAL, NOT_CALLED)])
@@ -1856,8 +1868,6 @@ _HISTORY_DONE = []
 
 def _n_all_histories(nr):
     """every history of at most 6 events over 2 loggees and 3 ticks (at most two T events)"""
-    if _HISTORY_DONE:
-        return
     import itertools
     n = 0
     for length in range(0, 7):
@@ -1868,13 +1878,30 @@ def _n_all_histories(nr):
     _HISTORY_DONE.append(n)
 
 
+_HISTORY_ERROR = []
+
+
 def _mk_update(rng, i, cex, nr):
-    _n_all_histories(nr)                   # once per process: exhaustive small scope, raises on any disagreement
-    if i % 2 == 0:
+    """a disagreement between the real objects and the ghost semantics of the lemmas is NOT raised here (that would be
+    a harness error): it is recorded and makes the clause history_model_agrees(self) of Log.update fail natively"""
+    if not _HISTORY_DONE and not _HISTORY_ERROR:
+        try:
+            _n_all_histories(nr)           # once per process: exhaustive small scope
+        except Exception as ex:
+            _HISTORY_ERROR.append("%s: %s" % (type(ex).__name__, ex))
+    log = None
+    if i % 2 == 0 and not _HISTORY_ERROR:
         evs = [rng.choice(("W0", "W1", "R", "T")) for _ in range(rng.randint(0, 10))]
-        log, _shares, _dirty = _n_history_check(nr, evs)       # a REACHABLE state of the history model
-        return {"self": _snapshot(log)}
-    return {"self": _n_random_log(rng, nr, nr.mod.UPDATE, multi=True)}
+        try:
+            log, _shares, _dirty = _n_history_check(nr, evs)   # a REACHABLE state of the history model
+        except Exception as ex:
+            _HISTORY_ERROR.append("%s: %s" % (type(ex).__name__, ex))
+            log = None
+    if log is None:
+        log = _n_random_log(rng, nr, nr.mod.UPDATE, multi=True)
+    log = _snapshot(log)
+    log._c22_history_error = _HISTORY_ERROR[0] if _HISTORY_ERROR else None
+    return {"self": log}
 
 
 # ---- native twins that need the entry snapshot -------------------------------------------------------------------
